@@ -260,6 +260,17 @@ func (x *Exec) lookupLocal(st *State, fr *Frame, name string) (Val, bool) {
 			}
 		}
 	}
+	// a local variable that is declared later than the point reached by this path (e.g. an early return in front of its
+	// declaration): the contract sees the zero value the variable would have
+	for _, b := range fr.fn.Blocks {
+		for _, in := range b.Instrs {
+			if al, ok := in.(*ssa.Alloc); ok && al.Comment == name {
+				if _, seen := fr.regs[al]; !seen {
+					return x.zeroVal(al.Type().Underlying().(*types.Pointer).Elem()), true
+				}
+			}
+		}
+	}
 	return Val{}, false
 }
 
